@@ -58,7 +58,7 @@ TEXTS = {
                 design_ref="DESIGN.md §5 C06",
                 level_text=("Every generated case is run on the real generated parser also with Debug, Statistics and (for terminating grammars) Memoize flipped and the results are compared on the property's own terms "
                             "(success, value, code-block errors; everything for Debug/Statistics); the packrat bound exprCnt <= nodes*(len+1) is checked on every memoized run. Lean: the model has no input for Debug/Statistics at all; "
-                            "theorems cover the memo-table discipline (hit returns the recorded tuple without evaluating, miss records exactly the result, key = (offset, node)). The full memo-soundness statement is false for the unchanged code (known finding D7), "
+                            "theorems cover the memo-table discipline (hit returns the recorded tuple without evaluating, miss records exactly the result, key = (offset, node)). The full memo-soundness statement is false for the unchanged code (known findings D7: a memo hit skips the label binding, kernel-evaluated witness C06_D7_...; D26: with left recursion a memo hit loses a rolled-back error), "
                             "so it is not claimed as proved."),
                 level_note=RT_NOTE + " Level 'other': differential twins + partial proof."),
     "C10": dict(technique="Lean 4 theorem (function equality of the two template instantiations) + variant-pair execution",
@@ -99,7 +99,8 @@ TEXTS = {
                 design_ref="DESIGN.md §5 C08",
                 level_text=("Every generated left-recursive case (direct, indirect, nested towers; all 8 LeftRecursion template variants; Memoize on/off) is run on the real generated parser and on the Lean model and compared on the full result (values, errors, stores, block trace); "
                             "direct left recursion without predicates is additionally run as its iterative twin (b1/../bm)(a1/../an)* on the plain template, which must match exactly the same prefix. Kernel-checked lemmas on the loop of the model: a failing or non-extending growth attempt is dropped with errors and store restored, an extending one becomes the seed, "
-                            "the recursive reference is answered from the seed, adopted growths strictly extend, and termination under a budget (C16_terminates covers left-recursive grammars). The equality 'seed growing = iteration' itself is not proved. Known finding D6 (memo hit drops #{} effects)."),
+                            "the recursive reference is answered from the seed, adopted growths strictly extend, and termination under a budget (C16_terminates covers left-recursive grammars). The equality 'seed growing = iteration' itself is not proved - it is false for the code as it is: known findings D6 (a leader memo hit drops #{} effects), D25 (indirect recursion entered through the non-leader rule is not greedy) and D26 (a memo hit loses a rolled-back error), "
+                            "each with a kernel-evaluated witness on the model (C08_D25_..., C08_D26_..., C05_D6_...) that the check replays on the real parser."),
                 level_note=RT_NOTE + " Level 'other': differential + partial proof."),
     "C18": dict(technique="race-detector stress of all 16 template variants (solo vs concurrent results) + Lean model of the pool discipline",
                 design_ref="DESIGN.md §5 C18", engine="lean-rt",
